@@ -256,6 +256,9 @@ class Parser:
                 self.lexer = Lexer(included_text, path=include_path)
                 ops = self.parse()
                 self.lexer = old_lexer
+                # Only the files that are currently being included can form a cycle:
+                # including the same file a second time is not recursion.
+                self.visited.discard(get_canonical_path(include_path))
                 return ops
         else:
             return self.expand_angle_include(tkn)
